@@ -41,6 +41,12 @@ use crate::{
 };
 
 mod remote_state;
+#[cfg(feature = "verif-hooks")]
+pub(crate) use self::remote_state::verif_path_state;
+#[cfg(feature = "verif-hooks")]
+pub(crate) use self::remote_state::verif_c22;
+#[cfg(feature = "verif-hooks")]
+pub(crate) use self::remote_state::RemoteStateMessage as VerifRemoteStateMessage;
 
 // TODO: use this
 // /// Number of endpoints that are inactive for which we keep info about. This limit is enforced
@@ -119,6 +125,16 @@ pub(super) fn to_transport_addr(
         }
         MultipathMappedAddr::Ip(addr) => Some(transports::Addr::from(addr)),
     }
+}
+
+/// Verification hook (C18): [`to_transport_addr`] on the hook wrappers of the maps.
+#[cfg(feature = "verif-hooks")]
+pub(crate) fn verif_to_transport_addr(
+    addr: std::net::SocketAddr,
+    relay_addrs: &super::mapped_addrs::verif_c18::Map<(RelayUrl, EndpointId), RelayMappedAddr>,
+    custom_addrs: &super::mapped_addrs::verif_c18::Map<CustomAddr, CustomMappedAddr>,
+) -> Option<transports::Addr> {
+    to_transport_addr(addr, &relay_addrs.0, &custom_addrs.0)
 }
 
 /// Stores the state required for starting and cleaning up the `RemoteStateActor`s.
@@ -209,6 +225,8 @@ impl RemoteMap {
         while let Some(result) = ready!(self.tasks.tasks.poll_join_next(cx)) {
             match result {
                 Ok((remote_id, leftover_msgs)) => {
+                    #[cfg(feature = "verif-hooks")]
+                    crate::verif_hooks::c21::on_joined(remote_id, &leftover_msgs);
                     return Poll::Ready((remote_id, leftover_msgs));
                 }
                 Err(err) => {
@@ -236,6 +254,8 @@ impl RemoteMap {
         if leftover_msgs.is_empty() {
             // the actor shut down cleanly
             self.senders.remove(&remote_id);
+            #[cfg(feature = "verif-hooks")]
+            crate::verif_hooks::c21::on_removed(remote_id);
             trace!(%remote_id, "cleaned up RemoteStateActor");
             true
         } else {
@@ -290,7 +310,11 @@ impl RemoteMap {
                 .start_remote_state_actor(remote_id, vec![], &self.mapped_addrs)
         });
 
+        #[cfg(feature = "verif-hooks")]
+        crate::verif_hooks::c21::on_send(remote_id, &message);
         if let Err(mpsc::error::SendError(message)) = sender.send(message).await {
+            #[cfg(feature = "verif-hooks")]
+            crate::verif_hooks::c21::on_send_err(remote_id);
             // The send failed, which means the RemoteStateActor is terminating. We call the cleanup
             // function so that its task is processed. This ensures that the leftover messages are
             // properly enqueued into a new actor, and that a later cleanup does not reap a newly
@@ -308,6 +332,8 @@ impl RemoteMap {
                 }
             }
         }
+        #[cfg(feature = "verif-hooks")]
+        crate::verif_hooks::c21::on_send_done(remote_id);
     }
 
     pub(super) fn senders(&self) -> ReadOnlyMap<EndpointId, mpsc::Sender<RemoteStateMessage>> {
@@ -327,6 +353,8 @@ impl Tasks {
     ) -> mpsc::Sender<RemoteStateMessage> {
         // Ensure there is a RemoteMappedAddr for this EndpointId.
         mapped_addrs.endpoint_addrs.get(&eid);
+        #[cfg(feature = "verif-hooks")]
+        crate::verif_hooks::c21::on_start(eid, &initial_msgs);
         let sender = RemoteStateActor::new(
             eid,
             self.local_direct_addrs.clone(),
@@ -464,5 +492,108 @@ mod tests {
         let outcome3 = rx3.await.expect("the resolve tx must be sent");
         assert!(outcome2.is_ok(), "expected Ok, but got {outcome2:?}");
         assert!(outcome3.is_ok(), "expected Ok, but got {outcome3:?}");
+    }
+}
+
+/// Accessors for `crate::verif_hooks::c21` (verification hooks only): a [`RemoteMap`] with
+/// default collaborators, built like `tests::make_remote_map`.
+#[cfg(feature = "verif-hooks")]
+pub(crate) mod verif_c21 {
+    use n0_future::future::now_or_never;
+    use tokio::sync::oneshot;
+
+    use super::*;
+
+    pub(crate) struct Harness {
+        pub(crate) map: RemoteMap,
+        pub(crate) shutdown_token: CancellationToken,
+        pub(crate) local_addrs: Option<n0_watcher::Watchable<BTreeSet<DirectAddr>>>,
+    }
+
+    pub(crate) struct Foreign {
+        pub(crate) senders: ReadOnlyMap<EndpointId, mpsc::Sender<RemoteStateMessage>>,
+        pub(crate) shutdown_token: CancellationToken,
+        pub(crate) local_addrs: Option<n0_watcher::Watchable<BTreeSet<DirectAddr>>>,
+    }
+
+    impl Foreign {
+        /// `try_send` of a `NetworkChange` through the read-only sender map (what
+        /// `Socket::try_send_remote_state_msg` does): 0 sent, 1 full, 2 closed, 3 no sender.
+        pub(crate) fn try_send(&self, id: EndpointId) -> u8 {
+            let Some(sender) = self.senders.get(&id) else {
+                return 3;
+            };
+            match sender.try_send(RemoteStateMessage::NetworkChange { is_major: false }) {
+                Ok(()) => 0,
+                Err(mpsc::error::TrySendError::Full(_)) => 1,
+                Err(mpsc::error::TrySendError::Closed(_)) => 2,
+            }
+        }
+    }
+
+    impl Harness {
+        pub(crate) fn new() -> Self {
+            let watchable = n0_watcher::Watchable::new(BTreeSet::new());
+            let shutdown_token = CancellationToken::new();
+            let map = RemoteMap::new(
+                Arc::new(SocketMetrics::default()),
+                watchable.watch(),
+                address_lookup::AddressLookupServices::default(),
+                shutdown_token.clone(),
+                Arc::new(crate::socket::biased_rtt_path_selector::BiasedRttPathSelector::default()),
+                Span::none(),
+            );
+            Self {
+                map,
+                shutdown_token,
+                local_addrs: Some(watchable),
+            }
+        }
+
+        /// `RemoteMap::resolve_remote`; the receiver of the reply is returned.
+        pub(crate) async fn resolve_remote(
+            &mut self,
+            addr: EndpointAddr,
+        ) -> oneshot::Receiver<Result<(), AddressLookupFailed>> {
+            let (tx, rx) = oneshot::channel();
+            self.map.resolve_remote(addr, tx).await;
+            rx
+        }
+
+        /// One poll of `RemoteMap::cleanup`, as the socket actor's select loop does.
+        pub(crate) fn cleanup_now(&mut self) -> Option<EndpointId> {
+            now_or_never(self.map.cleanup())
+        }
+
+        /// `try_send` of a `NetworkChange` through the read-only sender map (what
+        /// `Socket::try_send_remote_state_msg` does): 0 sent, 1 full, 2 closed, 3 no sender.
+        pub(crate) fn foreign_try_send(&self, id: EndpointId) -> u8 {
+            let senders = self.map.senders();
+            let Some(sender) = senders.get(&id) else {
+                return 3;
+            };
+            match sender.try_send(RemoteStateMessage::NetworkChange { is_major: false }) {
+                Ok(()) => 0,
+                Err(mpsc::error::TrySendError::Full(_)) => 1,
+                Err(mpsc::error::TrySendError::Closed(_)) => 2,
+            }
+        }
+
+        /// The parts other threads use while the owner is inside a `&mut self` call.
+        pub(crate) fn foreign(&mut self) -> Foreign {
+            Foreign {
+                senders: self.map.senders(),
+                shutdown_token: self.shutdown_token.clone(),
+                local_addrs: self.local_addrs.take(),
+            }
+        }
+
+        pub(crate) fn has_sender(&self, id: EndpointId) -> bool {
+            self.map.senders().get(&id).is_some()
+        }
+
+        pub(crate) fn n_tasks(&self) -> usize {
+            self.map.tasks.tasks.len()
+        }
     }
 }
